@@ -85,9 +85,10 @@ def run(ctx):
     ctx.trusted = TRUSTED
     ctx.assumptions = [
         "documents are trees with string keys (no YAML anchors/aliases sharing nodes, no non-string keys)",
-        "dimension values are chosen through the builder default or an environment variable (not the flag set)",
+        "dimension values are chosen through the builder default, an environment variable, or the dimension's flag set after WithDimension (flag.Set on a name no earlier Builder of the process registered; flag.Parse of a real command line is not exercised)",
         "string scalars of C03 documents are not env templates (those are C16's subject)"]
-    ctx.obligations_or_violation()
+    d = gl.Deferred(ctx)
+    d.obligations()
     binp = gl.build(ctx, "c03")
     if not binp:
         return
@@ -95,66 +96,46 @@ def run(ctx):
     tie_ok, tie_detail = ctx.translator_tie(
         "xlate_gconf", ["-src", os.path.join(ctx.copy_repo(), "gconfig")], "GConfGen", "Tie_C03")
     ctx.log("translator tie:", "OK" if tie_ok else "BROKEN", "-", tie_detail.splitlines()[0])
-    runs = [("corpus", ["-mode", "corpus"]),
-            ("random", ["-mode", "random", "-n", 500 if quick else 12000]),
-            ("ood", ["-mode", "ood", "-n", 80 if quick else 1500])]
+    if not tie_ok:
+        # the source of keySet/parsesAll/switchDimension/reduceAny/extract is no longer what the model
+        # was tied to; the correspondence run (widened if need be) is the search for a failing input
+        gen = os.path.join(ctx.gen, "GConfGen.v")
+        ctx.cov["translator_tie"] = {"status": "BROKEN", "detail": tie_detail[-600:]}
+        d.add({"unchecked": "translator tie Tie_C03 (regenerated reduceAny/switchDimension/parsesAll/keySet/"
+                            "extract = GConfModel)",
+               "detail": tie_detail[-2500:],
+               "generated": open(gen).read()[-3000:] if os.path.isfile(gen) else None},
+              {"kind": "translator_tie"})
+
+    def runs_for(f):
+        return [("random", ["-mode", "random", "-n", (500 if quick else 12000) * f]),
+                ("ood", ["-mode", "ood", "-n", (80 if quick else 1500) * f])]
+    runs = [("corpus", ["-mode", "corpus"])] + runs_for(1)
     cr = gl.corpus_run(ctx, "C03")
     if cr:
         runs.insert(1, cr)
     ctx.log("harness built")
-    terms, jsons, err = vlib.harness_cases(ctx, binp, runs)
-    ctx.log("harness ran: %d cases" % len(jsons))
-    if err:
-        ctx.report({"unchecked": "harness run", "detail": err}, {"kind": "harness"}, failing_input=False)
+    res = gl.correspondence(ctx, d, binp, {
+        "header": gl.HEADER, "case_type": CASE, "judge": JUDGE, "nontrivial": "c03_nontrivial",
+        "runs": runs, "widen": runs_for, "shard": 60 if quick else 200,
+        # the out-of-domain stream is compared and counted, never gating
+        "classify": lambda j, code: "info" if (code == 3 or j["kind"] == "ood") else
+        {1: "fail", 2: "model", 4: "oracle"}.get(code, "model"),
+        "shape": shape, "features": features, "view": view, "to_input": to_input,
+        "variants": variants, "size": size, "minimise": lambda j: True,
+        "verdict": lambda code: {1: "observation violates the resolution specification (resolve_spec)",
+                                 2: "observation differs from the Coq model of reduceAny/extract",
+                                 4: "generator's by-construction expectation differs from resolve_spec"}[code],
+    })
+    if res is None:
         return
-    bad, nt, err = ctx.judge_cases(gl.HEADER, CASE, JUDGE, terms, shard=60 if quick else 200,
-                                   nontrivial="c03_nontrivial")
-    if err:
-        ctx.report({"unchecked": "in-kernel evaluation of the correspondence", "detail": err},
-                   {"kind": "coq_eval"}, failing_input=False)
-        return
-    info = 0
-    bad = gl.spread(bad, lambda b: (b[1], shape(jsons[b[0]])))
-    for i, code in bad:
-        j = jsons[i]
-        if code == 3:
-            info += 1
-            continue
-        if code == 4:
-            ctx.report({"unchecked": "generator's by-construction expectation = resolve_spec",
-                        "case": view(j)}, {"kind": "oracle"}, failing_input=False)
-            continue
-        if ctx.nreplay < 3:
-            sh = shape(j)
-            _, mj = gl.minimise(ctx, binp, gl.HEADER, CASE, JUDGE, to_input(j), code, variants, size,
-                                keep=lambda c: shape(c) == sh)
-            if mj is not None:
-                mj["kind"] = j["kind"] + "/minimised"
-                j = mj
-        rep = {"case": view(j), "input": to_input(j),
-               "verdict": {1: "observation violates the resolution specification (resolve_spec)",
-                           2: "observation differs from the Coq model of reduceAny/extract"}[code],
-               "replay_cmd": "./check C03 --replay <this file>"}
-        ctx.report(rep, features(j), failing_input=(code == 1))
-    ctx.cov.setdefault("translator_tie", {})
-    if not tie_ok:
-        ctx.cov["translator_tie"] = {"status": "BROKEN", "detail": tie_detail[-600:]}
-    if not tie_ok and not any(c == 1 for _, c in bad):
-        # the source of keySet/parsesAll/switchDimension/reduceAny/extract is no longer what the model
-        # was tied to; the correspondence run above is the search for a concrete failing input
-        gen = os.path.join(ctx.gen, "GConfGen.v")
-        ctx.report({"unchecked": "translator tie Tie_C03 (regenerated reduceAny/switchDimension/parsesAll/keySet/"
-                                 "extract = GConfModel)",
-                    "detail": tie_detail[-2500:],
-                    "generated": open(gen).read()[-3000:] if os.path.isfile(gen) else None,
-                    "failing_inputs_found_by_the_correspondence_run": len([1 for _, c in bad if c == 1])},
-                   {"kind": "translator_tie"}, failing_input=False)
+    terms, jsons, bad, nt, info, widened = res
     indom = [j for j in jsons if j["kind"] != "ood"]
     ctx.cov.update({
         "evaluations": len(jsons),
         "lookups_compared": sum(len(j["gets"]) + len(j["strs"]) for j in jsons),
         "distinct_nontrivial": nt,
-        "rule": "case = (registered dimensions 1-3 in any order, selection via default/env, document by "
+        "rule": "case = (registered dimensions 1-3 in any order, selection via default/env/flag, document by "
                 "construction from C03's grammar, depth <= 7) with FromBytes outcome, GetDimension and "
                 "Get[any]/Get[string] at every path; non-trivial (measured inside Coq by c03_nontrivial) = "
                 "the document contains a dimension switch or an empty map under the case's dimensions",
@@ -163,15 +144,20 @@ def run(ctx):
         "load_outcomes": gl.hist(j["load"] for j in jsons),
         "dims_registered": gl.hist(len(j["dims"]) for j in indom),
         "selection_via_env": gl.hist(bool(j["env"]) for j in indom),
+        "selection_route_per_dimension": gl.hist(
+            ("flag" if d.get("flag") is not None else
+             "env" if any(k.lower() == d["name"].lower() for k in j["env"]) else "default")
+            for j in indom for d in j["dims"]),
         "doc_size_histogram": gl.hist(min(gl.tsize(j["doc"]) // 10 * 10, 100) for j in indom),
         "doc_depth_histogram": gl.hist(gl.tdepth(j["doc"]) for j in indom),
         "out_of_domain_model_differences": info,
         "exhaustive": False,
         "samples": [view(j) for j in jsons[2:4] + jsons[10:12]],
-        "disagreements": len([1 for _, c in bad if c != 3]),
+        "disagreements": len([1 for i, c in bad if c != 3 and jsons[i]["kind"] != "ood"]),
     })
-    ctx.log("correspondence: %d cases (%d non-trivial), %d lookups, %d disagreement(s), %d out-of-domain difference(s)" % (
-        len(jsons), nt, ctx.cov["lookups_compared"], ctx.cov["disagreements"], info))
+    ctx.log("correspondence: %d cases (%d non-trivial), %d lookups, %d disagreement(s), %d out-of-domain difference(s)%s" % (
+        len(jsons), nt, ctx.cov["lookups_compared"], ctx.cov["disagreements"], info,
+        "; widened run: %d cases, %d verdict-1" % (widened["cases"], widened["verdict_1"]) if widened else ""))
 
 
 def replay(ctx, path):
